@@ -2,7 +2,8 @@ CFG = {
     "modules": ["Parsley.Props.C06", "Parsley.Lemmas.FiltersA85", "Parsley.Lemmas.FiltersInflate", "Parsley.Lemmas.A85Reject",
                 "Parsley.Lemmas.InflateReject", "Parsley.Lemmas.InflateFixedBits", "Parsley.Lemmas.InflateFixed",
                 "Parsley.Spec.DeflateFixed", "Parsley.Spec.DeflateDyn", "Parsley.Lemmas.InflateDynHuff",
-                "Parsley.Lemmas.InflateDynHdr", "Parsley.Lemmas.InflateDyn", "Parsley.Props.C06Dyn"],
+                "Parsley.Lemmas.InflateDynHdr", "Parsley.Lemmas.InflateDyn", "Parsley.Props.C06Dyn",
+                "Parsley.Lemmas.InflatePrefix", "Parsley.Props.C06Reject"],
     "theorems": [
         "Parsley.C06.hex_roundtrip", "Parsley.C06.a85_roundtrip",
         "Parsley.C06.flate_glue_complete", "Parsley.C06.flate_glue_rejects",
@@ -44,6 +45,27 @@ CFG = {
         "Parsley.C06.Dyn.leftOver_construct", "Parsley.C06.Dyn.dynamicTables_hdr", "Parsley.C06.Dyn.readLens_rle",
         "Parsley.C06.Dyn.clLens_loop", "Parsley.C06.Dyn.codes_gen", "Parsley.C06.Dyn.block_stored",
         "Parsley.C06.Dyn.block_dyn", "Parsley.C06.Dyn.blocks_mixed", "Parsley.C06.exPlan_ok",
+        # C06e: the rejection side of FlateDecode for EVERY accepted zlib stream, whatever encoder wrote it (facts about the
+        # decoder model alone). Lemmas/InflatePrefix.lean: locality of every reading function (it consumes a prefix of the unread
+        # bytes and behaves the same whatever follows that prefix); Props/C06Reject.lean: the theorems + non-vacuity instances
+        "Parsley.C06.Prefix.bits_loc", "Parsley.C06.Prefix.decodeSym_loc", "Parsley.C06.Prefix.codes_loc",
+        "Parsley.C06.Prefix.readLens_loc", "Parsley.C06.Prefix.clLens_loc", "Parsley.C06.Prefix.dynamicTables_loc",
+        "Parsley.C06.Prefix.takeBytes_loc", "Parsley.C06.Prefix.blocks_loc",
+        "Parsley.C06.inflate_ok_split", "Parsley.C06.inflate_ok_or_err", "Parsley.C06.consumed_bounds",
+        "Parsley.C06.inflate_ignores_trailing", "Parsley.C06.inflate_truncation_rejected",
+        "Parsley.C06.inflate_truncation_rejected_any", "Parsley.C06.consumed_exact",
+        "Parsley.C06.inflate_trailer_verdict", "Parsley.C06.inflate_trailer_is_adler",
+        "Parsley.C06.inflate_trailer_altered_rejected",
+        "Parsley.C06.flate_truncation_is_error", "Parsley.C06.flate_trailer_is_error", "Parsley.C06.flateDecode_ok_inflate",
+        "Parsley.C06.flate_accepted_truncation_is_error", "Parsley.C06.chain_flate_truncated_is_error",
+        "Parsley.C06.decode_stream_flate_truncated_is_error", "Parsley.C06.chain_flate_trailer_is_error",
+        "Parsley.C06.decode_stream_accepted_truncation_is_error",
+        # ... instances for the spec encoder's streams of all three block types (every proper prefix, every trailer byte)
+        "Parsley.C06.consumed_zlibBlocks", "Parsley.C06.inflate_blocks_truncated", "Parsley.C06.inflate_blocks_adler_byte",
+        # ... one altered DATA byte of a stored block is caught by the Adler-32 check (no length bound)
+        "Parsley.C06.adler32_one_byte", "Parsley.C06.inflate_stored_data_byte_altered",
+        "Parsley.C06.inflate_stored_data_byte_set", "Parsley.C06.flate_stored_data_byte_is_error",
+        "Parsley.C06.exZ_ok", "Parsley.C06.exZ_consumed",
     ],
     "partial": {
         "flate_foreign_encoder_streams (not a theorem)":
@@ -65,15 +87,28 @@ CFG = {
         "Parsley.C06.corrupt_is_error":
             "the statement of corrupt_is_error itself is unchanged (illegal ASCIIHex character, missing ASCIIHex EOD, "
             "misaligned ASCII85 z, every stream the zlib decoder rejects; errors propagate through outer layers). The "
-            "corruptions it left to executed examples are now theorems for ALL inputs: a85_corrupt_is_error (illegal "
+            "corruptions it left to executed examples are theorems for ALL inputs: a85_corrupt_is_error (illegal "
             "character at any position, stray ~, VT/U+0085/U+00A0 inside, z inside any group, group >= 2^32 in any group, "
             "single-digit final group - with the real code's leniencies stated exactly: a lone final digit !..r is dropped "
-            "silently, leading/trailing VT/U+0085/U+00A0 are trimmed, bytes after the EOD are still examined) and "
-            "flate_stored_corrupt_is_error (every truncation, every altered byte of the Adler-32 trailer, of a LEN/NLEN "
-            "field of any block, of FCHECK / CMF; the three FLG values that differ only in FLEVEL are accepted: "
-            "inflate_header_flg_altered). STILL NOT proved as theorems (covered by the `mal` and `fz` correspondence "
-            "streams): truncations / bit flips of HUFFMAN-coded zlib streams, and alterations of stored-block DATA bytes "
-            "(these change the payload and are caught by the Adler-32 only with the checksum's own strength).",
+            "silently, leading/trailing VT/U+0085/U+00A0 are trimmed, bytes after the EOD are still examined), "
+            "flate_stored_corrupt_is_error (stored-block streams: every truncation, every altered byte of the Adler-32 trailer, of a "
+            "LEN/NLEN field of any block, of FCHECK / CMF; the three FLG values that differ only in FLEVEL are accepted: "
+            "inflate_header_flg_altered) and, since C06e, for EVERY zlib stream the decoder accepts, whatever encoder wrote it and "
+            "whatever its block types (Props/C06Reject.lean; no spec encoder involved): inflate_truncation_rejected - every prefix "
+            "shorter than what the decoder looked at (`consumed e` = header + blocks up to the byte boundary + 4 trailer bytes) is a "
+            "TransformError, never another payload, never the fuel panic; inflate_ignores_trailing - everything after is ignored; "
+            "inflate_trailer_verdict / inflate_trailer_altered_rejected - the result depends on the four trailer bytes only through "
+            "equality with the Adler-32 of the payload, any altered trailer byte is a TransformError; the same through the glue "
+            "(flate_truncation_is_error, flate_trailer_is_error, flate_accepted_truncation_is_error: any parameters) and through the "
+            "chain (chain_flate_truncated_is_error, decode_stream_flate_truncated_is_error, decode_stream_accepted_truncation_is_error: "
+            "the clause `partial output is never reported as success` for Flate, for ALL streams); instances for the spec encoders' "
+            "stored / fixed / dynamic streams: inflate_blocks_truncated (EVERY proper prefix), inflate_blocks_adler_byte; and "
+            "inflate_stored_data_byte_altered / _set (one altered DATA byte of a stored block is caught by the Adler-32: "
+            "adler32_one_byte, strings differing in exactly one byte have different checksums, any length). STILL NOT proved as "
+            "theorems (covered by the `mal` and `fz` correspondence streams): bit flips INSIDE Huffman-coded data or inside a dynamic "
+            "header (they may change the payload, the block structure or nothing the decoder looks at - e.g. padding bits - and are "
+            "caught only with the Adler-32's own strength: a two-byte alteration can preserve it), and alterations of more than one "
+            "stored DATA byte.",
     },
     "n": {"quick": 300, "thorough": 6000},
     "exhaustive": {"quick": False, "thorough": False},
@@ -169,7 +204,13 @@ LEVEL = {
             "(inflate_dynamic_roundtrip / flate_dynamic_roundtrip over the spec-side encoder Spec/DeflateDyn.lean: any valid code "
             "lengths incl. the incomplete sets zlib takes, any HLIT/HDIST/HCLEN, any run-length spelling, any LZ77 factorisation, any "
             "order of block types; crux canon_code: the decoding table built from code lengths decodes the RFC 1951 canonical code). "
-            "Corruptions of Huffman-coded streams are NOT covered by a theorem, and the real zlib is an external C library: there the "
+            "Rejection for EVERY accepted zlib stream, whatever encoder wrote it (Props/C06Reject.lean, from the locality of every reading "
+            "function of the inflate model, Lemmas/InflatePrefix.lean): every cut before the end of the Adler-32 trailer is a TransformError "
+            "(inflate_truncation_rejected - never another payload, never the fuel outcome), bytes after the trailer are ignored "
+            "(inflate_ignores_trailing), any altered trailer byte is a TransformError (inflate_trailer_altered_rejected), also through the glue and "
+            "behind correctly encoded outer layers of a chain (decode_stream_flate_truncated_is_error: no partial output reported as success); one "
+            "altered data byte of a stored block is caught by the Adler-32 (adler32_one_byte). "
+            "Bit flips inside Huffman-coded data are NOT covered by a theorem, and the real zlib is an external C library: there the "
             "executable Lean inflate is tied to the real zlib (its own output at levels 0-9, and the spec encoders' stored / fixed / "
             "dynamic output) and the whole model to decode_stream by the correspondence run of every check. Three defects of /repo (Flate truncation at 32 KiB / truncated streams accepted; ASCIIHex "
             "rejecting all input; ASCII85 rejecting z) are witnessed by theorems about the pre-repair glue and repaired by "
